@@ -267,6 +267,29 @@ func (rc *roundCheck) run() {
 	}
 	perKey := map[string][]matched{}
 	lastGlobal := -1
+	// Two requests of one writer can produce equal events (inc of a missing counter twice gives
+	// NEW I:1 twice, two deletes of one key, …) and a subscriber that joins or leaves during the
+	// round sees only some of them. An event is attributed to the earliest request that can have
+	// produced it and does not lie before a request of the same writer an earlier event was
+	// attributed to; for classes of equal events that is a consistent attribution whenever one
+	// exists, so an order violation is only reported when every attribution is out of order.
+	laneProgress := map[int]int{}
+	progress := func(lane int) int {
+		if v, ok := laneProgress[lane]; ok {
+			return v
+		}
+		return -1
+	}
+	better := func(cand, cur *capEntry) bool {
+		if cur == nil {
+			return true
+		}
+		cf, uf := cand.ex.Idx >= progress(cand.ex.Lane), cur.ex.Idx >= progress(cur.ex.Lane)
+		if cf != uf {
+			return cf
+		}
+		return cand.ex.Lane == cur.ex.Lane && cand.ex.Idx < cur.ex.Idx
+	}
 	for _, r := range rc.events {
 		m := r.Msg
 		if m == nil {
@@ -301,7 +324,7 @@ func (rc *roundCheck) run() {
 					dup = cand
 					continue
 				}
-				if c == nil || cand.ex.Lane == c.ex.Lane && cand.ex.Idx < c.ex.Idx {
+				if better(cand, c) {
 					c = cand
 				}
 			}
@@ -342,10 +365,10 @@ func (rc *roundCheck) run() {
 					}
 					continue
 				}
-				if cand.val == x && c == nil {
+				if cand.val == x && better(cand, c) {
 					c = cand
 				}
-				if cand.val == "" && anyVal == nil {
+				if cand.val == "" && better(cand, anyVal) {
 					anyVal = cand
 				}
 			}
@@ -355,9 +378,8 @@ func (rc *roundCheck) run() {
 			if c == nil && contended(key) {
 				// a shift that cloned the record before another writer changed it reports the older value
 				for _, cand := range caps[key] {
-					if cand.del && cand.matched == 0 {
+					if cand.del && cand.matched == 0 && better(cand, c) {
 						c = cand
-						break
 					}
 				}
 			}
@@ -376,6 +398,9 @@ func (rc *roundCheck) run() {
 		default:
 			rc.fail("event:status:"+st.String(), "event with a status that is none of NEW/UPDATED/DELETED", viewOf(r))
 			continue
+		}
+		if c.ex.Idx > progress(c.ex.Lane) {
+			laneProgress[c.ex.Lane] = c.ex.Idx
 		}
 		rc.timeCheck(r, c.ex)
 		perKey[key] = append(perKey[key], matched{r, c})
